@@ -49,7 +49,7 @@ def plan(tier, seed):
 
 FAULTS = ['server_stopped', 'poll_errors', 'send_fails', 'send_fails_during_flush', 'plugin0_shutdown',
           'plugin1_shutdown', 'plugin2_shutdown', 'poll_slow', 'same_plugin_names', 'plugin_named_poll',
-          'first_send_fails_rest_slow', 'deregistering_plugin0']
+          'first_send_fails_rest_slow', 'deregistering_plugin0', 'update_queued_behind_sends']
 
 
 def gen_case(seed):
@@ -61,6 +61,9 @@ def gen_case(seed):
                                        'first_send_fails_rest_slow'])]
     if 'first_send_fails_rest_slow' in faults:
         faults = [f for f in faults if f not in ('send_fails', 'send_fails_during_flush', 'server_stopped')]
+    if 'update_queued_behind_sends' in faults:
+        faults = [f for f in faults if f not in ('send_fails', 'send_fails_during_flush', 'server_stopped',
+                                                 'first_send_fails_rest_slow', 'poll_errors', 'poll_slow')]
     if 'poll_slow' in faults and 'server_stopped' in faults:
         faults.remove('server_stopped')
     case = {'pre_sys': r.chance(0.5), 'pre_thr': r.chance(0.5), 'no_trace': r.chance(0.25), 'ops': r.pick(SEQS_MORE),
@@ -345,6 +348,12 @@ def child_lifecycle(case):
                             return grpc.StatusCode.UNAVAILABLE
                         srv.fail_send = first_only
                         srv.send_delay = 0.3
+                    if 'update_queued_behind_sends' in case['faults']:
+                        # both delivery workers are busy with sends the service answers slowly; a configuration update
+                        # arrives and waits behind them; shutdown begins; the sends are answered. What was queued must
+                        # not bring the tracepoints back after shutdown.
+                        gate = threading.Event()
+                        srv.send_gate = gate
                     if 'poll_errors' in case['faults']:
                         srv.script = [('error', grpc.StatusCode.UNAVAILABLE)] * 50
                     before = len(plugins.events(None, 'decorate')) + _count_snap_events(srv)
@@ -354,6 +363,15 @@ def child_lifecycle(case):
                     if 'server_stopped' in case['faults']:
                         accepted[0] = None
                         srv.stop()
+                    if 'update_queued_behind_sends' in case['faults']:
+                        n_p = len(srv.polls)
+                        srv.set_config('cfg-late', [TracePointConfig(ID='snap', path='e2e_target.py',
+                                                                     line_number=marks['deposit_mid'], args=args),
+                                                    TracePointConfig(ID='late', path='e2e_target.py',
+                                                                     line_number=marks['transfer_mid'],
+                                                                     args=dict(args, log_msg='late {amount}',
+                                                                               snapshot='no_collect'))])
+                        srv.wait_polls(n_p + 2, 5)      # the poll that fetched it has been answered
                     if gate is not None:
                         threading.Timer(0.15, gate.set).start()
                     if 'poll_slow' in case['faults'] and 'server_stopped' not in case['faults']:
